@@ -92,7 +92,7 @@ func (w *hrWorker) next(d time.Duration) (line string, ok, dead bool) {
 	}
 }
 
-// TestHashringWorker is the subprocess side: it only runs when re-executed by TestC19.
+// TestHashringWorker is the subprocess side: it only runs when re-executed by TestC19 / TestC21.
 func TestHashringWorker(t *testing.T) {
 	if os.Getenv("HASHRING_WORKER") != "1" {
 		t.Skip("worker mode only")
@@ -104,6 +104,10 @@ func TestHashringWorker(t *testing.T) {
 		cs, err := decodeCase(sc.Bytes())
 		if err != nil {
 			fmt.Fprintf(out, "{\"phase\":\"build\",\"outcome\":\"badcase\",\"msg\":%q}\n", err.Error())
+			continue
+		}
+		if vt.Str(cs["op"]) == "c21conc" { // C21 concurrent scenario: one result line
+			writeJSON(out, c21ConcChild(cs))
 			continue
 		}
 		h, res := c19Build(cs)
